@@ -873,6 +873,15 @@ func (c *Client) Call(ctx context.Context, procedure string, options wamp.Dict, 
 
 	err := c.prepareCallPayloadMessage(message, options, args, kwargs)
 	if err != nil {
+		// Nothing was sent. Stop waiting for a reply and end the goroutine
+		// that handles progressive results.
+		c.sess.Lock()
+		delete(c.awaitingReply, id)
+		c.sess.Unlock()
+		if progChan != nil {
+			close(progChan)
+			<-progDone
+		}
 		return nil, err
 	}
 
@@ -972,6 +981,15 @@ func (c *Client) CallProgressive(ctx context.Context, procedure string, sendProg
 
 	err = c.prepareCallPayloadMessage(message, options, args, kwargs)
 	if err != nil {
+		// Nothing was sent. Stop waiting for a reply and end the goroutine
+		// that handles progressive results.
+		c.sess.Lock()
+		delete(c.awaitingReply, id)
+		c.sess.Unlock()
+		if progChan != nil {
+			close(progChan)
+			<-progDone
+		}
 		return nil, err
 	}
 
